@@ -131,7 +131,7 @@ Definition is_noresult (r : result addr) : bool := match r with NoResult => true
 Definition known_empty_chain (c : case) : bool :=
   match c with
   | CResolve rq r obs_base attacks =>
-    negb (spec_ok c) && model_agrees c && has_empty_chain r
+    has_empty_chain r && negb (spec_ok c) && model_agrees c
     && (is_noresult obs_base || base_ok rq r obs_base)
     && forallb (fun a : attack => is_noresult (snd a) || attack_ok rq r obs_base a) attacks
   | _ => false
